@@ -213,6 +213,43 @@ fn clipped_balls() -> Prog {
     p
 }
 
+/// A ball of radius 0.9 centred on the (+1,+1,+1) corner of the region united
+/// with a gently tilted half-space: octree tasks whose root collapse is
+/// attempted and rejected sit next to bare leaf tasks whose siblings collapse
+/// at the merge (per-worker state carried from task to task shows up here)
+fn corner_ball_floor() -> Prog {
+    use crate::prog::POp;
+    use fidget_core::context::{BinaryOpcode as B, UnaryOpcode as U};
+    let mut p = Prog::default();
+    let x = p.push(POp::Var(0));
+    let y = p.push(POp::Var(1));
+    let z = p.push(POp::Var(2));
+    let one = p.push(POp::Const(1.0));
+    let mut s = None;
+    for a in [x, y, z] {
+        let d = p.push(POp::Bin(B::Sub, a, one));
+        let q = p.push(POp::Un(U::Square, d));
+        s = Some(match s {
+            None => q,
+            Some(t) => p.push(POp::Bin(B::Add, t, q)),
+        });
+    }
+    let r = p.push(POp::Un(U::Sqrt, s.unwrap()));
+    let k = p.push(POp::Const(0.9));
+    let ball = p.push(POp::Bin(B::Sub, r, k));
+    let k7 = p.push(POp::Const(0.7));
+    let f0 = p.push(POp::Bin(B::Add, z, k7));
+    let k1 = p.push(POp::Const(0.1));
+    let fx = p.push(POp::Bin(B::Mul, x, k1));
+    let k05 = p.push(POp::Const(0.05));
+    let fy = p.push(POp::Bin(B::Mul, y, k05));
+    let f1 = p.push(POp::Bin(B::Add, f0, fx));
+    let floor = p.push(POp::Bin(B::Add, f1, fy));
+    let root = p.push(POp::Bin(B::Min, ball, floor));
+    p.roots = vec![root];
+    p
+}
+
 fn mesh<F: Backend + RenderHints>(depth: u8, pool_threads: usize, max_jobs: usize) -> Workload {
     mesh_scene::<F>("", &scene::scenes_3d()[5].prog, depth, pool_threads, max_jobs)
 }
@@ -582,6 +619,9 @@ enum Unit {
     /// meshing under a non-identity world-to-model transform (vertices are
     /// mapped back to model space; pre-split cells may collapse at the merge)
     MeshTransformed { depth: u8, pool: usize, scene: usize },
+    /// mixed-depth pre-split (depth 2 with 1-5 threads, depth 3 with 7) of a
+    /// scene with rejected collapses next to collapsing leaf tasks
+    MeshCornerBall { depth: u8, pool: usize },
     /// the same workloads through ThreadPool::Global
     Global { kind: u8, cancel: bool },
 }
@@ -625,6 +665,9 @@ fn units(tier: Tier) -> Vec<Unit> {
     for (depth, pool) in [(2u8, 1usize), (2, 6), (3, 2)] {
         v.push(Unit::MeshManyTraces { depth, pool });
     }
+    for (depth, pool) in [(2u8, 1usize), (2, 3), (2, 5), (3, 7)] {
+        v.push(Unit::MeshCornerBall { depth, pool });
+    }
     for (depth, pool, scene) in [(2u8, 1usize, 0usize), (2, 6, 0), (3, 16, 0), (2, 2, 1), (1, 1, 0), (3, 13, 1)] {
         v.push(Unit::MeshTransformed { depth, pool, scene });
     }
@@ -648,7 +691,7 @@ impl Check for C09 {
     }
     fn meta(&self, tier: Tier) -> Meta {
         Meta {
-            rule: "case = one complete execution of a real workload under a recorded schedule; the rayon stand-in resolves every decision from the schedule: (1) how the task list is cut into contiguous jobs (every composition up to max_jobs; map_init's init runs once per job), (2) which runnable job holds the baton at each scheduling point - parallel-op start, job end, and the verif-hooks points at the start of each raster root-tile task, each tile-recursion entry and each octree task (raster: also each cancellation poll) - explored by stateless re-execution in order of increasing preemption count up to the bound, (3) the environment's single step CancelToken::cancel(), offered at every scheduling point and at EVERY cancellation poll (per octree cell, per tile) until it has fired; workloads: 2D render with 2, 3, 4 root tiles and with 32 root tiles of one level over a scene with many distinct tile traces (each root tile = one simplify on the job's render handle; <= 3 jobs), 3D render with 2, 3, 4 root tiles, octree meshing of a scene with many distinct cell traces (depth 2 pool sizes 1 and 6, depth 3 pool size 2; task list cut into <= 3 / 2 jobs) of a sphere and a box under a non-identity world-to-model transform (scale 2 + translation; 6 depth / pool-size combinations), and of a simple scene for one pool size per pre-split class (the pool size reaches the mesher only through target_count = min(8^depth, 10*threads): depth 0 -> the root cell alone; depth 1 -> 8 tasks for every n; depth 2 -> 15, 22, 36, 43, 50 tasks for n = 1..5 and 64 for n >= 6; quick: depths 0 and 1 n in {1,16}, depth 2 n in {1,2}; thorough: depth 2 n in {1..6,16} and depth 3 n in {1,7}), VM (+ JIT on one workload per kind), plus the no-pool paths (cancel at every poll), ThreadPool::Global (one workload per kind), and the row-parallel post-processing effects denoise_normals + apply_shading (6 rows cut into <= 3 jobs; SSAO excluded: unseeded RNG); oracles: never cancelled => Some(r) with r equal to the sequential no-pool result (images bitwise, meshes as sorted multisets of rotation-normalised triangles over vertex bit patterns); cancelled => None or exactly the full result, and None when the token is set at the first opportunity; one schedule per workload is replayed twice and must reproduce trace and observation; a prefix that diverges is a machinery error; shared tapes: 3 controlled threads x 2 rounds of point / interval / float-slice / grad-slice evaluation through handles onto one set of tapes, with a scheduling point before each round's tracing evaluations and before its bulk evaluations (4 per thread), explored like the other workloads, each thread's results equal to its solo results; labelled sampling supplement: the same bodies on free-running OS threads (200 rounds) - reported under its own counter, not deciding".into(),
+            rule: "case = one complete execution of a real workload under a recorded schedule; the rayon stand-in resolves every decision from the schedule: (1) how the task list is cut into contiguous jobs (every composition up to max_jobs; map_init's init runs once per job), (2) which runnable job holds the baton at each scheduling point - parallel-op start, job end, and the verif-hooks points at the start of each raster root-tile task, each tile-recursion entry and each octree task (raster: also each cancellation poll) - explored by stateless re-execution in order of increasing preemption count up to the bound, (3) the environment's single step CancelToken::cancel(), offered at every scheduling point and at EVERY cancellation poll (per octree cell, per tile) until it has fired; workloads: 2D render with 2, 3, 4 root tiles and with 32 root tiles of one level over a scene with many distinct tile traces (each root tile = one simplify on the job's render handle; <= 3 jobs), 3D render with 2, 3, 4 root tiles, octree meshing of a scene with many distinct cell traces (depth 2 pool sizes 1 and 6, depth 3 pool size 2; task list cut into <= 3 / 2 jobs) of a corner ball united with a tilted floor in the mixed-depth pre-split regime (depth 2 pools 1, 3, 5; depth 3 pool 7), of a sphere and a box under a non-identity world-to-model transform (scale 2 + translation; 6 depth / pool-size combinations), and of a simple scene for one pool size per pre-split class (the pool size reaches the mesher only through target_count = min(8^depth, 10*threads): depth 0 -> the root cell alone; depth 1 -> 8 tasks for every n; depth 2 -> 15, 22, 36, 43, 50 tasks for n = 1..5 and 64 for n >= 6; quick: depths 0 and 1 n in {1,16}, depth 2 n in {1,2}; thorough: depth 2 n in {1..6,16} and depth 3 n in {1,7}), VM (+ JIT on one workload per kind), plus the no-pool paths (cancel at every poll), ThreadPool::Global (one workload per kind), and the row-parallel post-processing effects denoise_normals + apply_shading (6 rows cut into <= 3 jobs; SSAO excluded: unseeded RNG); oracles: never cancelled => Some(r) with r equal to the sequential no-pool result (images bitwise, meshes as sorted multisets of rotation-normalised triangles over vertex bit patterns); cancelled => None or exactly the full result, and None when the token is set at the first opportunity; one schedule per workload is replayed twice and must reproduce trace and observation; a prefix that diverges is a machinery error; shared tapes: 3 controlled threads x 2 rounds of point / interval / float-slice / grad-slice evaluation through handles onto one set of tapes, with a scheduling point before each round's tracing evaluations and before its bulk evaluations (4 per thread), explored like the other workloads, each thread's results equal to its solo results; labelled sampling supplement: the same bodies on free-running OS threads (200 rounds) - reported under its own counter, not deciding".into(),
             bounds: match tier {
                 Tier::Quick => "preemption bound 2 (raster, shared tape), 1 (mesh); schedules are explored in order of increasing preemption count and capped at 8000 per workload: a workload that hits the cap is fully explored only up to the bound recorded in the counters workloads_fully_explored_to_preemption_bound_<k>".into(),
                 Tier::Thorough => "preemption bound 2 (raster, mesh), 3 (shared tape); schedules are explored in order of increasing preemption count and capped at 100000 per workload: a workload that hits the cap is fully explored only up to the bound recorded in the counters workloads_fully_explored_to_preemption_bound_<k>".into(),
@@ -703,6 +746,10 @@ impl Check for C09 {
                 wl.global = true;
                 wl.name = format!("{} (ThreadPool::Global)", wl.name);
                 explore(cx, &mut sub, &wl, true, cancel, if kind == 2 && tier == Tier::Quick { 1 } else { 2 }, cap);
+            }
+            Unit::MeshCornerBall { depth, pool } => {
+                let wl = mesh_scene::<VmFunction>("corner ball + tilted floor, ", &corner_ball_floor(), depth, pool, 2);
+                explore(cx, &mut sub, &wl, true, false, 1, cap.min(4000));
             }
             Unit::MeshTransformed { depth, pool, scene } => {
                 // a camera of half-width 2 with an offset, as a GUI would build it
